@@ -819,6 +819,7 @@ var raisers = map[string][]raiser{
 			return nil, fmt.Sprintf("bare:%d", o)
 		},
 	},
+	"frozenWrite":  {nativeRaise("Object.freeze([1]).push", "push", "2", "dot"), nativeRaise("Object.freeze([1, 2]).unshift", "unshift", "0", "dot")},
 	"cyclicJSON":   {nativeRaise("JSON.stringify", "stringify", "cyc", "dot")},
 	"uriMalformed": {nativeRaise("decodeURIComponent", "decodeURIComponent", "\"%\"", "id")},
 }
@@ -1186,6 +1187,12 @@ func genAll(c *h.Ctx) {
 				t = optTok(th.text)
 			}
 			c.Add(fmt.Sprintf("uthrow %s %s %s@%s", via, th.kind, t, hx(th.expr)), "uthrow:"+via)
+		}
+	}
+	// (3g) building an engine error's message must not run script: every site x logging / throwing toString+valueOf
+	for site := range sidefxSites {
+		for _, mode := range []string{"log", "throw"} {
+			c.Add("sidefx "+site+" "+mode, "sidefx")
 		}
 	}
 	// (3f) lifetimes: several errors alive at once, traces read after all were created / after later Runs / on a Copy / from Go
